@@ -1195,6 +1195,12 @@ pub fn replay(path: &str) -> i32 {
                 Some(c) => reported_property(&c, &f),
                 None => f.prop.clone(),
             };
+            // an open known finding is reported as such here too (VCHECK_IGNORE_KNOWN=1 for the strict view)
+            let known = load_findings();
+            if let Some(k) = match_open(&known, &f) {
+                println!("KNOWN-FINDING: property={} {} (signature {}, replay {})", prop, k.what, k.id, path);
+                return 0;
+            }
             println!("VIOLATION property={} replay={}", prop, path);
             1
         }
